@@ -231,10 +231,14 @@ func init() {
 	registerE1("C03", &e1Config{checker: C03Checker{}, depth: [2]int{1, 2}, probes: C03Probes, frags: c03Frags,
 		extraAssume: []string{"the request menu (probes) is applied from every state reached with at most depth_bound operations; invalid fragments violate one constraint class each, independent of the state"}})
 	{
-		fr, names := smallFrags()
-		_ = fr
+		// C05's alphabet also holds a transaction that is valid with a warning only
+		c05Frags := func() (map[string]*Fragment, []string) {
+			fr, names := smallFrags()
+			return fr, append(append([]string{}, names...), "fw")
+		}
+		_, names := c05Frags()
 		alpha := BuildAlphabet(names, CoreMulti(), false)
-		registerE1("C05", &e1Config{checker: C05Checker{}, depth: [2]int{1, 2}, probes: c05Probes(alpha), frags: smallFrags,
+		registerE1("C05", &e1Config{checker: C05Checker{}, depth: [2]int{1, 2}, probes: c05Probes(alpha), frags: c05Frags,
 			extraAssume: []string{"timer expiry is driven with a real 1 ms transaction timeout and a 30 s watchdog on the release of the transaction slot (single active thread, no schedule enumeration here; interleavings are C16)",
 				"unmanaged device leaves removed by an aggregated list-entry delete are not required to come back (the property speaks of paths the transaction touched on behalf of intents)"}})
 	}
